@@ -3,6 +3,7 @@
 the hash of the tokens the edit replaces on the CURRENT tree.  Run after reviewing that each such edit's assumed contract
 describes the replaced text.  usage: tools/setpins.py [unit ...]"""
 import os, re, sys
+os.environ["VERIF_SETPINS"] = "1"
 sys.path.insert(0, "/verif")
 from vxlib import gen
 C = "/verif/contracts"
